@@ -395,6 +395,32 @@ func verifGenCreate(name string) verifStmt {
 		}}
 }
 
+// verifGenRefusedCreate: a CREATE TABLE the engine must refuse (a VARCHAR length
+// beyond 32 bits in its second column). Histories contain failing statements
+// too; run reports success iff the statement was refused, apply changes nothing.
+func verifGenRefusedCreate(name string, tag string) verifStmt {
+	ct := verifCreateStmt(name, verifStdCols[:2])
+	big := verifI64(tag + "len")
+	verifAssume(big > 2147483647)
+	ct.Elements[1].ColumnDefinition.DataType = sql.CharacterStringType{Len: big, Type: sql.T_VARCHAR}
+	return verifStmt{kind: "refused-create", table: name,
+		run: func(rm RelationManager) error {
+			if err := EvaluateCreateTable(ct, rm); err == nil {
+				return errInvalidAccepted
+			}
+			return nil
+		},
+		apply:  func(db *verifDB) {},
+		rowOps: func(db *verifDB) int { return 0 },
+		applyN: func(db *verifDB, j int) {}}
+}
+
+var errInvalidAccepted = verifErr("an invalid statement was accepted")
+
+type verifErr string
+
+func (e verifErr) Error() string { return string(e) }
+
 // verifFreeStmt picks one statement among insert(1), insert(2), update, delete, create.
 func verifFreeStmt(db *verifDB, tag string, slen int, kinds int) verifStmt {
 	return verifStmtOfKind(db, tag, slen, verifChoice(tag+"kind", kinds))
@@ -416,6 +442,9 @@ func verifScriptKind(script, n, i int) int {
 func verifStmtOfKind(db *verifDB, tag string, slen int, k int) verifStmt {
 	if k == 4 {
 		return verifGenCreate("n" + tag)
+	}
+	if k == 5 {
+		return verifGenRefusedCreate("r"+tag, tag)
 	}
 	t := db.tables[0]
 	if len(db.tables) > 1 {
@@ -484,6 +513,7 @@ func verifConcreteInsert(t *verifTable, from, n int) verifStmt {
 //	6: two tables t (8 rows) and u (3 rows)
 //	7: t with 16 rows (three leaves), a=13 deleted
 //	8: t with 30 rows (7 leaves)   9: t with 40 rows and u with 20 rows
+//	10: six tables t,u,v,w,x,y (3 rows / 1 row each): the next CREATE TABLE splits the sys_pages leaf
 func verifPrefixStmts(sc int) []verifStmt {
 	tt := &verifTable{name: "t", cols: verifStdCols}
 	tu := &verifTable{name: "u", cols: verifStdCols}
@@ -523,13 +553,18 @@ func verifPrefixStmts(sc int) []verifStmt {
 		out = append(out, verifConcreteInsert(tt, 0, 30), del("t", 17))
 	case 9: // 60 rows in two tables
 		out = append(out, verifConcreteInsert(tt, 0, 40), verifGenCreate("u"), verifConcreteInsert(tu, 100, 20))
+	case 10: // six tables: the next CREATE TABLE is the 7th user table (the sys_pages leaf splits)
+		out = append(out, verifConcreteInsert(tt, 0, 3))
+		for i, n := range []string{"u", "v", "w", "x", "y"} {
+			out = append(out, verifGenCreate(n), verifConcreteInsert(&verifTable{name: n, cols: verifStdCols}, 100*(i+1), 1))
+		}
 	default:
 		panic("unknown prefix scenario")
 	}
 	return out
 }
 
-const verifNumPrefixes = 10
+const verifNumPrefixes = 11
 
 // verifNewDB creates the data directory and database "db" and opens it with the timer off.
 func verifNewDB(cacheSize int) *storage.RelationService {
@@ -564,7 +599,7 @@ func verifPrefixDB(sc int, cacheSize int, warm bool) (*storage.RelationService, 
 		}
 		return rs, db
 	}
-	key := "prefix" + string(rune('0'+sc))
+	key := "prefix" + string(rune('a'+sc))
 	if !verifFSCacheLoad(key) {
 		rs := verifNewDB(0)
 		scratch := &verifDB{name: "db"}
